@@ -151,22 +151,24 @@ package cputensor
 // Representation invariant of every tensor that exists when a call starts: dims is the shape. It is established by the
 // constructors (the functions below that allocate a CPUTensor) and preserved because no function writes the dims of a
 // pre-existing object (frame obligations).
-//@ axiom dimsLink: forallT(x, imp(x != nil && preexisting(x), len(x.dims) == rank(x) && forall(k, 0, rank(x), x.dims[k] == dim(x, k))
+//@ axiom dimsLink: forallT(x, imp(x != nil && published(x), len(x.dims) == rank(x) && forall(k, 0, rank(x), x.dims[k] == dim(x, k))
 //@                 && prod(x.dims, 0, len(x.dims)) == nelems(x)))
 
 /* ---------------- L2 leaf functions: contracts assumed here, checked by the bounded stand-ins of /verif/rac ---------------- */
 
 //@ func applyUnaryFuncOnTensorElemWise
-//@   requires t != nil
-//@   assumed L2 tree recursion over nested []any (calcData); bounded stand-in: rac TestElementwise
+//@   requires t != nil && published(t) && suf != nil
+//@   uses dimsLink, dataLink, mapEl, wfExt
 //@   returns fresh
-//@   ensures o != nil && sameShape(o, t) && forallJ(J, imp(inb(o, J), el(o, J) == app1(suf, el(t, J))))
+//@   ensures[C03] o != nil && sameShape(o, t)
+//@   ensures[C03] forallJ(J, imp(inb(o, J), el(o, J) == app1(suf, el(t, J))))
 
 //@ func applyBinaryFuncOnTensorsElemWise
-//@   requires t1 != nil && t2 != nil && sameShape(t1, t2)
-//@   assumed L2 tree recursion over nested []any (calcData); bounded stand-in: rac TestElementwise
+//@   requires t1 != nil && t2 != nil && sameShape(t1, t2) && published(t1) && published(t2) && sbf != nil
+//@   uses dimsLink, dataLink, map2El, wfExt
 //@   returns fresh
-//@   ensures o != nil && sameShape(o, t1) && forallJ(J, imp(inb(o, J), el(o, J) == app2(sbf, el(t1, J), el(t2, J))))
+//@   ensures[C03] o != nil && sameShape(o, t1)
+//@   ensures[C03] forallJ(J, imp(inb(o, J), el(o, J) == app2(sbf, el(t1, J), el(t2, J))))
 
 //@ func CPUTensor.reduceDimUsingFunc
 //@   requires 0 <= dim && dim < rank(t)
@@ -189,11 +191,11 @@ package cputensor
 
 //@ func CPUTensor.avg
 //@   uses dimsLink
-//@   requires preexisting(t)
+//@   requires published(t)
 //@   ensures[C05] value == tsum(t) / real(nelems(t))
 //@ func CPUTensor.mean
 //@   uses dimsLink
-//@   requires preexisting(t)
+//@   requires published(t)
 //@   ensures[C05] value == tsum(t) / real(nelems(t))
 //@ func CPUTensor.std
 //@   ensures[C05] value == sqrt(tvar(t))
@@ -219,13 +221,13 @@ package cputensor
 
 //@ func CPUTensor.slice
 //@   uses dimsLink
-//@   requires preexisting(t) && sliceOK(index, t)
+//@   requires published(t) && sliceOK(index, t)
 //@   returns fresh
 //@   ensures[C06] o != nil && sliceShape(o, t, index) && forallJ(J, imp(inb(o, J), el(o, J) == el(t, addFrom(J, index))))
 
 //@ func CPUTensor.patch
 //@   uses dimsLink
-//@   requires preexisting(t) && u != nil && preexisting(u) && patchOK(index, u, t)
+//@   requires published(t) && u != nil && published(u) && patchOK(index, u, t)
 //@   returns fresh
 //@   ensures[C06] o != nil && sameShape(o, t)
 //@   ensures[C06] forallJ(J, imp(inb(o, J), el(o, J) == ite(inBox(J, index, u), el(u, subFrom(J, index)), el(t, J))))
@@ -257,19 +259,19 @@ package cputensor
 
 //@ func CPUTensor.unSqueeze
 //@   uses dimsLink
-//@   requires preexisting(t) && 0 <= dim && dim <= rank(t)
+//@   requires published(t) && 0 <= dim && dim <= rank(t)
 //@   returns fresh
 //@   ensures[C06] o != nil && unsqShape(o, t, dim) && nelems(o) == nelems(t) && forall(p, 0, nelems(t), flat(o, p) == flat(t, p))
 
 //@ func CPUTensor.squeeze
 //@   uses dimsLink
-//@   requires preexisting(t) && 0 <= dim && dim < rank(t) && dim(t, dim) == 1
+//@   requires published(t) && 0 <= dim && dim < rank(t) && dim(t, dim) == 1
 //@   returns fresh
 //@   ensures[C06] o != nil && redShape(o, t, dim) && nelems(o) == nelems(t) && forall(p, 0, nelems(t), flat(o, p) == flat(t, p))
 
 //@ func CPUTensor.flatten
 //@   uses dimsLink
-//@   requires preexisting(t) && 0 <= fromDim && fromDim < rank(t)
+//@   requires published(t) && 0 <= fromDim && fromDim < rank(t)
 //@   returns fresh
 //@   ensures[C06] o != nil && rank(o) == fromDim + 1 && forall(k, 0, fromDim, dim(o, k) == dim(t, k))
 //@   ensures[C06] nelems(o) == nelems(t) && forall(p, 0, nelems(t), flat(o, p) == flat(t, p))
@@ -339,7 +341,7 @@ package cputensor
 //@   loop 0 invariant len(cts) == len(ts) && forall(k, 0, i, ts[k] != nil && cts[k] == ts[k])
 
 //@ func broadcastForBinaryOp
-//@   requires tinv(ct1) && tinv(ct2) && preexisting(ct1) && preexisting(ct2)
+//@   requires tinv(ct1) && tinv(ct2) && published(ct1) && published(ct2)
 //@   returns fresh
 //@   uses dimsLink, btargetCompat1, btargetCompat2, btargetCompat3, btargetShape
 //@   ensures[C03,C07] iff(err == nil, bcompat(ct1, ct2))
@@ -366,7 +368,7 @@ package cputensor
 //@                       && rank(o) == n && forall(k, 0, n-2, dim(o, k) == dim(p, k)) && dim(o, n-2) == dim(p, n-2) && dim(o, n-1) == dim(q, n-1), mmshape(o, a, b))))))))))
 
 //@ func broadcastForMatMul
-//@   requires tinv(ct1) && tinv(ct2) && preexisting(ct1) && preexisting(ct2) && rank(ct1) >= 2 && rank(ct2) >= 2
+//@   requires tinv(ct1) && tinv(ct2) && published(ct1) && published(ct2) && rank(ct1) >= 2 && rank(ct2) >= 2
 //@   returns fresh
 //@   uses dimsLink, mmtargetOK, mmtargetOK2, mmtargetCompat
 //@   ensures[C04,C07] iff(err == nil, mmcompat(ct1, ct2))
@@ -444,7 +446,7 @@ package cputensor
 //@   ensures forall(a, 0, len(ts), forallJ(J, imp(inb(o, J) && catoff(ts, dim, a) <= J[dim] && J[dim] < catoff(ts, dim, a+1), el(o, J) == el(ts[a], upd(J, dim, J[dim] - catoff(ts, dim, a))))))
 
 //@ func Concat
-//@   requires len(ts) >= 2 && forall(k, 0, len(ts), imp(ts[k] != nil, tinv(ts[k]) && preexisting(ts[k])))
+//@   requires len(ts) >= 2 && forall(k, 0, len(ts), imp(ts[k] != nil, tinv(ts[k]) && published(ts[k])))
 //@   uses dimsLink
 //@   returns fresh
 //@   ensures[C09,C06] iff(err == nil, catDimsOK(ts, dim)) && imp(err != nil, o == nil)
@@ -481,3 +483,33 @@ package cputensor
 //@   modifies *r
 //@   ensures[C03] WF(*r, arrOf(dims), offOf(dims), endOf(dims)) && Map1(suf, *a, *r, arrOf(dims), offOf(dims), endOf(dims))
 //@   loop 0 invariant forall(j, 0, i, WF(rRows[j], arrOf(dims), offOf(dims), endOf(dims)) && Map1(suf, aRows[j], rRows[j], arrOf(dims), offOf(dims), endOf(dims)))
+
+// Representation invariant of every pre-existing tensor, data part (established at publication: obligations repinv:*)
+//@ axiom dataLink: forallT(x, imp(x != nil && published(x), WF(x.data, arrOf(x.dims), 0, len(x.dims)) && forallJ(J, el(x, J) == leafv(x.data, J, 0))))
+
+// inRange(J, A, lo, hi): the coordinates lo..hi-1 of J are within the sizes A
+//@ define inRange(J, A, lo, hi) := forall(j, lo, hi, 0 <= J[j] && J[j] < A[j])
+//@ define sameOn(A, B, lo, hi) := forall(j, lo, hi, A[j] == B[j])
+
+// Map1 is pointwise on the leaves (induction over the nesting depth hi - lo)
+//@ define mapElBody(lo, hi) := forallF(f, forallD(a, forallD(r, forallJ(A, forallJ(J, imp(0 <= lo && WF(a, A, lo, hi) && WF(r, A, lo, hi) && Map1(f, a, r, A, lo, hi) && inRange(J, A, lo, hi), leafv(r, J, lo) == app1(f, leafv(a, J, lo))))))))
+//@ induct mapEl: mapElBody
+// well-formedness depends only on the sizes in the window
+//@ define wfExtBody(lo, hi) := forallD(d, forallJ(A, forallJ(B, imp(WF(d, A, lo, hi) && sameOn(A, B, lo, hi), WF(d, B, lo, hi)))))
+//@ induct wfExt: wfExtBody
+
+//@ define map2ElBody(lo, hi) := forallF(f, forallD(a, forallD(b, forallD(r, forallJ(A, forallJ(J, imp(0 <= lo && WF(a, A, lo, hi) && WF(b, A, lo, hi) && WF(r, A, lo, hi) && Map2(f, a, b, r, A, lo, hi) && inRange(J, A, lo, hi), leafv(r, J, lo) == app2(f, leafv(a, J, lo), leafv(b, J, lo)))))))))
+//@ induct map2El: map2ElBody
+
+// calcData: the tree recursion of the element-wise binary operations
+//@ func applyBinaryFuncOnTensorsElemWise#0
+//@   requires a != nil && b != nil && r != nil && sbf != nil && forall(k, 0, len(dims), dims[k] >= 0)
+//@   requires WF(*a, arrOf(dims), offOf(dims), endOf(dims)) && WF(*b, arrOf(dims), offOf(dims), endOf(dims))
+//@   modifies *r
+//@   ensures[C03] WF(*r, arrOf(dims), offOf(dims), endOf(dims)) && Map2(sbf, *a, *b, *r, arrOf(dims), offOf(dims), endOf(dims))
+//@   loop 0 invariant forall(j, 0, i, WF(rRows[j], arrOf(dims), offOf(dims), endOf(dims)) && Map2(sbf, aRows[j], bRows[j], rRows[j], arrOf(dims), offOf(dims), endOf(dims)))
+
+// a fibre statistic of x (or anything of its reduced shape), un-squeezed along d, broadcasts against any tensor of x's
+// shape, and the result keeps that shape
+//@ lemma unsqRedCompat: forallT(u, forallT(m, forallT(x, forallT(a, forallI(d, imp(unsqShape(u, m, d) && redShape(m, x, d) && 0 <= d && d < rank(x) && sameShape(a, x), bcompat(a, u)))))))
+//@ lemma unsqRedVia: forallT(o, forallT(u, forallT(m, forallT(x, forallT(a, forallI(d, imp(unsqShape(u, m, d) && redShape(m, x, d) && 0 <= d && d < rank(x) && sameShape(a, x) && bshape(o, a, u), sameShape(o, x))))))))
